@@ -64,7 +64,7 @@ def required(tier):
     return {"set:hdr_transitions": 300, "set:payload_transitions": 500, "frag.messages": 1500, "frag.multi_message_streams": 150,
             "flip.decided": 1500, "flip.field.magic": 150, "flip.field.command": 500, "flip.field.length": 150, "flip.field.checksum": 150,
             "flip.field.payload": 100, "flip.expected_accept": 100, "flip.fragmented": 2000, "eof.offsets": 200, "magic.decided": 6, "cmd.decided": 150,
-            "codec.version": 30, "codec.version.relay_false": 5, "codec.getheaders": 7, "codec.inv": 6, "codec.addr": 6, "codec.ping": 5}
+            "codec.version": 30, "codec.version.relay_false": 5, "codec.version.height_top_bit": 5, "codec.getheaders": 7, "codec.inv": 6, "codec.addr": 6, "codec.ping": 5}
 
 
 def exhaustive(tier, counts):
@@ -292,7 +292,7 @@ def run_case(kind, params, ctx):
         n = params["count"]
         hashes = [rand_bytes(rng, 32) for _ in range(n)]
         stop = rand_bytes(rng, 32) if n % 2 else b"\x00" * 32
-        pv = rng.choice([70015, 70016, 1, 2 ** 32 - 1])
+        pv = rng.choice([70015, 70016, 1, 0, 2 ** 31, 2 ** 32 - 1])
         exp = rp.getheaders_payload(pv, hashes, stop)
         ctx.count("codec.getheaders")
         ctx.seen("gh", n)
@@ -333,7 +333,7 @@ def run_case(kind, params, ctx):
         return
     if kind == "codec_addr":
         n = params["count"]
-        entries = [(rng.choice([0, 1, 1700000000, 2 ** 32 - 1]), rand_bytes(rng, 8), rand_bytes(rng, 16), rng.choice([0, 1, 8333, 65535])) for _ in range(n)]
+        entries = [(rng.choice([0, 1, 1700000000, 2 ** 31, 2 ** 32 - 1]), rand_bytes(rng, 8), rand_bytes(rng, 16), rng.choice([0, 1, 8333, 32767, 32768, 65535])) for _ in range(n)]
         exp = rp.addr_payload(entries)
         ctx.count("codec.addr")
         ctx.seen("addr", n)
@@ -389,12 +389,15 @@ class _FixedTime:
 
 def _codec_version(ctx, rng):
     import bits.p2p as p2p
-    height = rng.choice([0, 1, 2 ** 31 - 1, rng.randrange(0, 900000)])
-    rport, tport = rng.choice([0, 1, 8333, 18444, 65535]), rng.choice([0, 8333, 65535, rng.randrange(65536)])
-    pv = rng.choice([70015, 70016, 60002, 1])
+    # every integer field at its signedness boundaries (the encoder writes unsigned little-endian fields of fixed width)
+    height = rng.choice([0, 1, 2 ** 31 - 1, 2 ** 31, 2 ** 32 - 1, rng.randrange(2 ** 31, 2 ** 32), rng.randrange(0, 900000)])
+    rport, tport = rng.choice([0, 1, 8333, 18444, 32768, 65535]), rng.choice([0, 8333, 32767, 32768, 65535, rng.randrange(65536)])
+    pv = rng.choice([70015, 70016, 60002, 1, 0, 2 ** 31 - 1, 2 ** 31, 2 ** 32 - 1])
     services = rng.choice([0, 1, 8, 0x409, 2 ** 64 - 1])
     relay = rng.random() < 0.5
-    now = rng.choice([0, 1231006505, 1700000000, 2 ** 31, 2 ** 33])
+    now = rng.choice([0, 1231006505, 1700000000, 2 ** 31, 2 ** 33, 2 ** 63 - 1, 2 ** 63, 2 ** 64 - 1])
+    if height >= 2 ** 31:
+        ctx.count("codec.version.height_top_bit")
     ctx.count("codec.version")
     if not relay:
         ctx.count("codec.version.relay_false")
@@ -424,6 +427,9 @@ def _codec_version(ctx, rng):
     if bytes(parsed.get("user_agent", b"")) != ua:
         ctx.violation("codec/version/field-lost/user_agent", f"{parsed.get('user_agent')!r}")
     # a hand-assembled payload (reference layout) with an EMPTY and a long user agent
+    # (the documented layout has signed version/timestamp/height fields: values with the top bit set are only judged on the
+    #  library's own build -> parse round trip above, not on hand-assembled payloads)
+    pv, now, height = pv % 2 ** 31, now % 2 ** 63, height % 2 ** 31
     for ual in (0, 1, 30, 252):  # >= 253 is not a payload the library can build: observed, not claimed (DESIGN.md section 7)
         uab = rand_bytes(rng, ual).replace(b"\x00", b"a")
         nonce = rng.getrandbits(64)
